@@ -35,9 +35,22 @@ def observe(policy, req, gcfg, acfg):
             raise RuntimeError("builder down")
         return real.make_request(req)
 
+    if acfg.get("engine_raises"):
+        # an engine fault: evaluation itself raises (whatever entry point the middleware uses)
+        async def boom(*a, **k):
+            raise RuntimeError("engine down")
+
+        def boom_sync(*a, **k):
+            raise RuntimeError("engine down")
+        for name in ("evaluate_async", "is_allowed_async", "_evaluate_core_async"):
+            setattr(guard, name, boom)
+        for name in ("evaluate_sync", "is_allowed_sync"):
+            setattr(guard, name, boom_sync)
     mw = RbacxMiddleware(app, guard=guard, mode=acfg["mode"], build_env=builder if acfg["builder"] else None,
                          add_headers=acfg["add_headers"])
     scope = {"type": acfg["scope_type"]} if acfg["scope_type"] is not None else {}
+    # request details the decision does not depend on: enforcement may not depend on them either
+    scope.update(acfg.get("scope_extra") or {})
 
     async def receive():
         return {"type": "http.request"}
@@ -58,7 +71,20 @@ def observe(policy, req, gcfg, acfg):
     return ([{"a": "inject"}] if injected else []) + acts, guard
 
 
+SCOPE_EXTRAS = [
+    {},
+    {"method": "GET", "path": "/docs/1", "headers": []},
+    {"method": "OPTIONS", "path": "/docs/1", "headers": [[b"origin", b"https://evil.example"], [b"access-control-request-method", b"DELETE"]]},
+    {"method": "options", "path": "/", "headers": [[b"access-control-request-method", b"GET"]]},
+    {"method": "HEAD", "path": "/health", "headers": []},
+    {"method": "POST", "path": "/docs/1/../2", "query_string": b"admin=1", "headers": [[b"x-forwarded-for", b"127.0.0.1"], [b"authorization", b"Bearer x"]]},
+    {"method": "TRACE", "path": "/metrics", "headers": [[b"upgrade", b"websocket"]], "http_version": "1.0"},
+    {"method": "GET", "path": "/static/app.js", "scheme": "https", "client": ["127.0.0.1", 1], "server": ["localhost", 443], "root_path": "/internal"},
+]
+
+
 def acfgs():
+    k = 0
     for mode, builder, add_headers, st, br in itertools.product(["enforce", "inject"], [True, False], [False, True],
                                                                 ["http", "websocket", "lifespan", None], [False, True]):
         if br and not builder:
@@ -67,6 +93,12 @@ def acfgs():
         if br:
             a["builder_raises"] = "RuntimeError"
         yield a
+        if st == "http" and builder and not br:
+            for extra in SCOPE_EXTRAS[1:]:
+                yield {**a, "scope_extra": extra}
+            yield {**a, "engine_raises": "RuntimeError"}
+            k += 1
+            yield {**a, "engine_raises": "RuntimeError", "scope_extra": SCOPE_EXTRAS[1 + k % (len(SCOPE_EXTRAS) - 1)]}
 
 
 def mark(pol):
@@ -98,7 +130,10 @@ def run_cases(run: lib.Run, audit: dict, scale: int = 1):
             cases.append((mark(pol), req, cfg, a))
     r = random.Random(run.seed * 17 + 20)
     for pol, req, cfg in gc.random_cases(run.seed * 19 + 20, (1200 if quick else 12000) * scale, hostile=0.05, nested=0.5, rel=0.1):
-        a = gen_choice(r, all_a) if r.random() < 0.4 else {"mode": "enforce", "builder": True, "add_headers": r.random() < 0.5, "scope_type": "http"}
+        a = gen_choice(r, all_a) if r.random() < 0.4 else {"mode": "enforce", "builder": True, "add_headers": r.random() < 0.5, "scope_type": "http",
+                                                           "scope_extra": gen_choice(r, SCOPE_EXTRAS)}
+        if a.get("scope_type") == "http" and a.get("builder") and not a.get("builder_raises") and r.random() < 0.06:
+            a = {**a, "engine_raises": "RuntimeError"}
         cases.append((mark(pol), req, cfg, a))
     obs, cmds = [], []
     for pol, req, cfg, a in cases:
@@ -106,7 +141,7 @@ def run_cases(run: lib.Run, audit: dict, scale: int = 1):
         obs.append(acts)
         cmd = real.guard_cmd(pol, req, cfg, consts, proto.build_oracle(pol, req, cfg.get("resolver"), cfg.get("checker")))
         cmd["cmd"] = "asgi"
-        cmd["asgi"] = {**a, "scope_type": proto.enc(a["scope_type"])}
+        cmd["asgi"] = {k: v for k, v in {**a, "scope_type": proto.enc(a["scope_type"])}.items() if k != "scope_extra"}
         cmds.append(cmd)
     answers = proto.run_driver(cmds)
     for (pol, req, cfg, a), acts, model in zip(cases, obs, answers):
@@ -122,7 +157,10 @@ def run_cases(run: lib.Run, audit: dict, scale: int = 1):
         down = sum(1 for x in acts if x["a"] == "downstream")
         if acts[:1] != [{"a": "inject"}]:
             why = "guard not attached to the scope"
-        if enforcing and not a.get("builder_raises"):
+        if enforcing and a.get("engine_raises"):
+            if down or bodies or starts or not any(x["a"] == "raise" for x in acts):
+                why = "evaluation raised but downstream ran / something was sent / the error was swallowed"
+        elif enforcing and not a.get("builder_raises"):
             d = real.run_guard(pol, req, cfg, "async")
             if "ok" in d:
                 if d["ok"]["allowed"] != (down == 1) or (d["ok"]["allowed"] and (bodies or starts)):
@@ -155,7 +193,9 @@ def gen_choice(r, xs):
 
 
 def check(run: lib.Run, audit: dict) -> int:
-    run.rule = ("every combination of mode × builder present × add_headers × scope type (http/websocket/lifespan/none) × builder raising, over a "
+    run.rule = ("every combination of mode × builder present × add_headers × scope type (http/websocket/lifespan/none) × builder raising; for enforced "
+                "http scopes also × 7 request shapes the decision does not depend on (methods incl. OPTIONS/HEAD/TRACE, paths, CORS and auth "
+                "headers, query strings, client/server) and × an engine that raises; over a "
                 "subsample of the C01 template-pool cases, plus random grammar cases (nested sets with marker ids, obligation-failed permits) in "
                 "enforce mode. non-trivial = an enforced request that was answered with a 403")
     run.assumptions = ["env builder modelled as: returns the request or raises"]
